@@ -47,6 +47,7 @@ func (ex *Exec) recordViolation(kind, id, msg string, model map[string]uint64) {
 	viol := &Violation{Kind: kind, ID: id, Msg: msg, Model: model, Case: ex.caseLabel}
 	viol.Vector, viol.Kinds = ex.vectorFor(model)
 	viol.Decisions = append([]int{}, ex.vec[:ex.pos]...)
+	viol.Sched = append([]int{}, ex.schedVec...)
 	ex.violations = append(ex.violations, viol)
 }
 
@@ -280,6 +281,19 @@ func init() {
 	// root are violations of kind "write".
 	h("verifFreeze", func(fr *frame, a []value) value {
 		fr.ex.freeze(a[0])
+		return nil
+	})
+	// verifShared(root): the structure shared by the harness's goroutines.
+	h("verifShared", func(fr *frame, a []value) value {
+		ts := fr.ex.sched()
+		fs := &frozenSet{cells: map[*value]bool{}, maps: map[*omap]bool{}, seen: map[interface{}]bool{}, hits: map[string]bool{}}
+		fs.walk(a[0], 0)
+		ts.shared = fs
+		return nil
+	})
+	// verifJoin(): wait for every goroutine started by the harness.
+	h("verifJoin", func(fr *frame, a []value) value {
+		fr.ex.sched().join(fr)
 		return nil
 	})
 	h("verifThaw", func(fr *frame, a []value) value {
